@@ -115,7 +115,7 @@ def _asm_line_tokens(texts):
         tabs.append([t.get(c, []) for c in range(t.get('n', 0))])
     return out, tabs, flags
 
-def _cmp_asm_par(problems, place, texts, par):
+def _cmp_asm_par(problems, place, texts, par, stats=None):
     got, gtabs, flags = _asm_line_tokens(texts)
     exp, etabs = par_asm_tokens(par)
     d = first_diff(exp, got)
@@ -123,6 +123,8 @@ def _cmp_asm_par(problems, place, texts, par):
         problems.append(_p('tokens', place, d))
         return flags
     for k, (et, gt) in enumerate(zip(etabs, gtabs)):
+        if stats is not None:
+            stats['tables'] += 1
         if len(et) != len(gt):
             problems.append(_p('tokens', place, 'table %d: expected %d columns, got %d' % (k, len(et), len(gt))))
             continue
@@ -182,7 +184,7 @@ def check_asm(doc, out, err, W, min_cw=10, want_warnings=True):
             return
         for k, (g, par) in enumerate(zip(got, pars)):
             stats['places'] += 1
-            flags = _cmp_asm_par(problems, '%s paragraph %d' % (place, k), [t for l, t in g], par)
+            flags = _cmp_asm_par(problems, '%s paragraph %d' % (place, k), [t for l, t in g], par, stats)
             has_list = any(p[0] == 'l' for p in par)
             for (raw, text), tf in zip(g, flags):
                 tk = toks(text)
@@ -286,7 +288,7 @@ def check_asm(doc, out, err, W, min_cw=10, want_warnings=True):
                 break
             stats['places'] += 1
             par = comment_par(g)
-            flags = _cmp_asm_par(problems, gn + ' instruction comment', texts, par)
+            flags = _cmp_asm_par(problems, gn + ' instruction comment', texts, par, stats)
             stats['words'] += len(par_flat_tokens(par))
             has_list = any(p[0] == 'l' for p in par)
             for raw, text, tf in zip(raws, texts, flags):
